@@ -13,6 +13,7 @@ LEVEL_TEXT = ("Cross-process digest monitoring: a fixed item set (core-grammar s
               "processes, and inside each process the same item is computed with fresh components and with Parser / Generator / "
               "Tokenizer / MappingSchema objects reused since process start (also after calls that raised).")
 LEVEL_TEXT += (" Per dialect one Tokenizer / Parser / Generator is kept over that dialect's harvested statements (own order per process) and compared, including token positions, with components created per statement.")
+LEVEL_TEXT += (' User-defined dialects made by one factory function (same qualified class names) are asked in a per-process order with answers known by construction.')
 LEVEL_NOTE = "diff() edit order is the documented exception and is not part of the item set"
 TECHNIQUE = "runtime monitoring: output digests compared across processes (hash seeds x call orders) and fresh vs reused components"
 RULE = ("fixed item set per VERIF_SEED replayed in N processes (distinct hash seeds and permutations); non-trivial = item whose "
@@ -224,6 +225,58 @@ def dialect_history(ctx, digests):
     digests["dialect-history"] = out
 
 
+def custom_dialect_history(ctx, digests):
+    """user-defined dialects (public API: subclass Dialect) made by one factory function, so their classes share module and
+    qualified name, plus a re-executed class body; used in this process's own order. Every answer is known by construction
+    (the tag of the dialect that was asked must be in the text) and the digests are compared across processes as well."""
+    import sqlglot
+    from sqlglot import exp
+    from sqlglot.dialects.dialect import Dialect
+    from sqlglot.generator import Generator as BaseGen
+    from sqlglot.tokens import Tokenizer as BaseTok, TokenType
+
+    def make(tag, quote):
+        class Custom(Dialect):
+            class Tokenizer(BaseTok):
+                IDENTIFIERS = [quote]
+                KEYWORDS = {**BaseTok.KEYWORDS, f"KW_{tag}": TokenType.CURRENT_DATE}
+
+            class Generator(BaseGen):
+                TRANSFORMS = {**BaseGen.TRANSFORMS,
+                              exp.Upper: lambda self, e, _t=tag: self.func(f"UP_{_t}", e.this),
+                              exp.CurrentDate: lambda self, e, _t=tag: f"TODAY_{_t}"}
+
+                def lower_sql(self, e, _t=tag):
+                    return self.func(f"LOW_{_t}", e.this)
+        return Custom
+
+    tags = [("A", '"'), ("B", "`"), ("C", '"'), ("D", "`")]
+    rng = random.Random(f"{ctx.seed}:C15:custom:{ctx.shard}")
+    rng.shuffle(tags)
+    classes = {t: make(t, q) for t, q in tags}
+    out = {}
+    asks = list(tags) * 2
+    rng.shuffle(asks)
+    for n, (t, q) in enumerate(asks):
+        D = classes[t]
+        try:
+            r1 = sqlglot.transpile(f"SELECT UPPER(x), LOWER(y), KW_{t} FROM {q}T{q}", read=D, write=D)[0]
+            r2 = sqlglot.parse_one("SELECT UPPER(LOWER(z))").sql(dialect=D)
+        except Exception as e:
+            r1 = r2 = "EXC:" + type(e).__name__ + ":" + str(e)[:80]
+        ctx.count("custom_dialect_answers", 2)
+        ctx.count("evaluations", 2)
+        want1 = f"SELECT UP_{t}(x), LOW_{t}(y), TODAY_{t} FROM {q}T{q}"
+        want2 = f"SELECT UP_{t}(LOW_{t}(z))"
+        if (r1, r2) != (want1, want2):
+            ctx.violation("custom-dialect-answers-like-another", {"tag": t, "position": n, "order": [a[0] for a in asks], "got": [r1, r2], "want": [want1, want2]},
+                          {"custom_dialect_order": [a[0] for a in asks]})
+            break
+        out[f"{t}:1"] = h64(r1)
+        out[f"{t}:2"] = h64(r2)
+    digests["custom-dialects"] = out
+
+
 def _digest(fn):
     try:
         r = fn()
@@ -312,6 +365,7 @@ def worker(ctx):
         digests[it["id"]] = out
         ctx.count("items_processed")
     component_reuse(ctx, digests)
+    custom_dialect_history(ctx, digests)
     case_d, case_mism = case_schema_digests(random.Random(f"{ctx.seed}:C15:caseorder:{ctx.shard}"))
     digests["case-schema"] = case_d
     ctx.count("case_schema_answers", len(case_d))
@@ -339,11 +393,11 @@ def cross_check(agg):
                 if k not in seen:
                     seen[k] = (dig, e.get("hashseed"))
                 elif seen[k][0] != dig:
-                    sig_api = api.split(":")[0] if str(iid) in ("reuse-fresh", "case-schema", "dialect-history") else api
+                    sig_api = api.split(":")[0] if str(iid) in ("reuse-fresh", "case-schema", "dialect-history", "custom-dialects") else api
                     if (str(iid), sig_api) in flagged:
                         continue
                     flagged.add((str(iid), sig_api))
-                    name = f"{iid}:{sig_api}" if str(iid) in ("reuse-fresh", "case-schema", "dialect-history") else sig_api
+                    name = f"{iid}:{sig_api}" if str(iid) in ("reuse-fresh", "case-schema", "dialect-history", "custom-dialects") else sig_api
                     out.append((f"output-differs-across-processes:{name}",
                                 {"item": iid, "api": api, "hashseeds": [seen[k][1], e.get("hashseed")], "digests": [seen[k][0], dig]},
                                 {"item_id": iid, "api": api}))
